@@ -1,7 +1,12 @@
 #!/bin/sh
-# build the OCaml driver from the freshly extracted model (coq/model.ml{,i})
+# build the OCaml driver <name> from the freshly extracted model coq/model_<name>.ml{,i}
 set -e
+name="${1:-core}"
 cd "$(dirname "$0")"
-cp ../coq/model.ml ../coq/model.mli .
-ocamlfind ocamlopt -O2 -w -a -package str model.mli model.ml main.ml -o driver 2>&1 | grep -v 'options -O2 is only relevant\|^$' || true
-test -x driver
+mkdir -p "_build_$name"
+cp "../coq/model_$name.ml" "_build_$name/model.ml"
+cp "../coq/model_$name.mli" "_build_$name/model.mli"
+cp main.ml "_build_$name/main.ml"
+cd "_build_$name"
+ocamlfind ocamlopt -O2 -w -a -package str model.mli model.ml main.ml -o "../driver_$name" 2>&1 | grep -v 'options -O2 is only relevant\|^$' || true
+test -x "../driver_$name"
